@@ -310,6 +310,12 @@ def obligations(tier):
                 continue
             for final in ("close", "userclose"):
                 seqs.append(dict(seq=list(seq), final=final))
+    if thorough:
+        for c in range(1, 3):
+            for seq in itertools.product(OUTCOMES, repeat=c):
+                seqs.append(dict(seq=list(seq), final="close", on_reconnect=False))
+                seqs.append(dict(seq=list(seq), final="userclose", ping=True))
+                seqs.append(dict(seq=list(seq), final="close", default=True))
     for mo in MID_OUTCOMES:
         for final in ("close", "userclose"):
             seqs.append(dict(seq=[mo], final=final))
@@ -317,7 +323,7 @@ def obligations(tier):
     extra = [dict(seq=["eof", "refused"], final="close", on_reconnect=False), dict(seq=["reset"], final="userclose", on_reconnect=False),
              dict(seq=["eof"], final="close", default=True), dict(seq=["refused", "eof"], final="userclose", default=True),
              dict(seq=["eof", "eof"], final="close", ping=True), dict(seq=["reset", "refused"], final="userclose", ping=True)]
-    ext = [dict(seq=list(seq), final=f) for c in range(0, 3) for seq in itertools.product(("refused", "rejected", "eof"), repeat=c) for f in ("close", "userclose")]
+    ext = [dict(seq=list(seq), final=f) for c in range(0, (4 if thorough else 3)) for seq in itertools.product(("refused", "rejected", "eof"), repeat=c) for f in ("close", "userclose")]
     ext += [dict(seq=[l], final="close", close_in_timer=True) for l in ("eof", "refused", "rejected")]
     return [
         Obligation("K-seq", k_seq, seqs + extra,
